@@ -1,10 +1,14 @@
 import FormulaicVerif.Engines.Json
 import FormulaicVerif.Model.Materialize
+import FormulaicVerif.Model.NestedMatrix
 /-! Engine `c02` (serves C02 and C03): runs the executable model of the materializer pipeline.
 
-ops: `matrix` (whole `_build_model_matrix`), `columns` (`_get_columns_for_term`, base and fast),
-`simplify` (`_simplify_scoped_terms` on an explicit list), `spanned`
-(`_get_scoped_terms_spanned_by_evaled_factors`). Rationals travel as `"p/q"` strings. -/
+ops: `matrix` (whole `_build_model_matrix` over flat encodings, `Model/Materialize.lean`), `nmatrix`
+(the same over factor values of any shape, `Model/NestedMatrix.lean` + `Model/FactorEncode.lean`),
+`encode` (`_encode_evaled_factor` of one factor), `columns` (`_get_columns_for_term`, base and fast,
+both label types), `simplify` (`_simplify_scoped_terms` on an explicit list), `spanned`
+(`_get_scoped_terms_spanned_by_evaled_factors`), `cluster` (`_cluster_terms`). Rationals travel as
+`"p/q"` strings. -/
 namespace FormulaicVerif.Engines.C02
 open Lean FormulaicVerif.Model FormulaicVerif.Engines
 
@@ -93,6 +97,98 @@ def handleMatrix (j : Json) : Json :=
         ("columns", jstrs (r.cols.map (·.name)))]))),
       ("columns", jlist ((combineColumns (jbool j "asdict") (allColumns rs)).map entryJ))]
 
+/-! ### factor values of any shape (`Model/FactorEncode.lean`) -/
+section Nested
+open FormulaicVerif.Model.Nest
+
+def metaOf (j : Json) : Meta :=
+  { columnNames := match jval j "cn" with | .null => none | v => some ((asArr v).map fieldOf),
+    format := fmtOf (jval j "fmt"), encoded := jbool j "enc", hasEncoder := jbool j "hasenc",
+    spansIntercept := jbool j "spans", dropField := optFieldOf (jval j "drop"), reduced := jbool j "red",
+    formatReduced := optFmtOf (jval j "fmtr") }
+def optMetaOf (j : Json) : Option Meta := match j with | .null => none | _ => some (metaOf j)
+
+/-- decode a value tree (`fuel` bounds the nesting depth; the harness never nests deeper than 8) -/
+def valOf : Nat → Json → Val
+  | 0, _ => .col []
+  | n + 1, j =>
+    match j.getObjVal? "c" with
+    | .ok c => .col (colOf c)
+    | .error _ =>
+      .dict ((jarr j "d").foldr (fun p es =>
+        match asArr p with
+        | [k, v] => .cons (fieldOf k) (valOf n v) es
+        | _ => es) .nil) (optMetaOf (jval j "m"))
+
+def pairsOf (j : Json) : List (Field × Col) :=
+  (asArr j).map (fun p => match asArr p with | [f, c] => (fieldOf f, colOf c) | _ => (⟨"", false⟩, []))
+
+def rawOf (j : Json) : Raw :=
+  match jstr j "t" with
+  | "frame" => .frame (pairsOf (jval j "cols"))
+  | "arr2" => .arr2 ((jarr j "cols").map colOf)
+  | "arrN" => .arrN
+  | "cat" => .cat ((jarr j "levels").map fieldOf)
+      ((jarr j "codes").map (fun c => match c with | .null => none | c => some (asNat c)))
+  | _ => .val (valOf 64 (jval j "v"))
+
+def rfactorOf (j : Json) : RFactor :=
+  { expr := jstr j "expr", present := jbool j "present",
+    -- a literal's value is computed by the model from its text (`constantValue`)
+    kind := (match kindOf j with | .constant v => .constant (constantValue (jstr j "expr") v) | k => k),
+    md := metaOf (jval j "md"),
+    raw := rawOf (jval j "raw"),
+    ext := match jval j "ext" with
+      | .null => none
+      | e => some (valOf 64 (jval e "full"), valOf 64 (jval e "reduced")) }
+
+def fieldJ (f : Field) : Json := Json.mkObj [("t", Json.str f.text), ("s", Json.bool f.isStr)]
+def npartJ (p : NPart) : Json := jlist [Json.str p.expr, jlist (p.path.map fieldJ), Json.bool p.reduced]
+def nentryJ (e : NEntry) : Json :=
+  Json.mkObj [("name", Json.str e.name), ("parts", jlist (e.parts.map npartJ)), ("values", colJ e.col)]
+
+def ncfgOf (j : Json) : NConfig :=
+  { cache := (jarr j "factors").map rfactorOf,
+    terms := (jarr j "terms").map (fun t => (asArr t).map asStr),
+    ensureFullRank := jbool j "efr", clusterByNumerical := jbool j "cluster",
+    variant := if jstr j "variant" = "base" then .base else .fast,
+    nrows := jnat j "nrows" }
+
+def handleNMatrix (j : Json) : Json :=
+  let cfg := ncfgOf j
+  match nbuildStructure cfg with
+  | .error e => jerr e.name
+  | .ok rs =>
+    Json.mkObj [
+      ("structure", jlist (rs.map (fun r => Json.mkObj [
+        ("term", jstrs r.term), ("scoped", jlist (r.sts.map stJ)),
+        ("columns", jstrs (r.cols.map (·.name)))]))),
+      ("columns", jlist ((ncombineColumns (jbool j "asdict") (nallColumns rs)).map nentryJ)),
+      -- cross-check: the flat model on the same case, when the harness could express it
+      ("flat", match jval j "flat" with | .null => Json.null | f => handleMatrix f)]
+
+def nitemJ (it : NItem) : Json :=
+  jlist [Json.str it.name, jlist (it.part.path.map fieldJ), colJ it.col]
+
+/-- `_encode_evaled_factor(factor, spec, drop_rows, reduced_rank)` for both rank settings -/
+def handleEncode (j : Json) : Json :=
+  let f := rfactorOf (jval j "factor")
+  let one (r : Bool) : Json :=
+    match encodeFactor f r with
+    | .error e => jerr e.name
+    | .ok items => jlist (items.map nitemJ)
+  Json.mkObj [("full", one false), ("reduced", one true)]
+
+def nitemOf (j : Json) : NItem :=
+  ⟨jstr j "name", ⟨jstr j "name", [], false⟩, colOf (jval j "col")⟩
+
+def nresJ (r : Except MErr (List NEntry)) : Json :=
+  match r with
+  | .error e => jerr e.name
+  | .ok es => jlist (es.map (fun e => jlist [Json.str e.name, colJ e.col]))
+
+end Nested
+
 def itemOf (j : Json) : Item :=
   ⟨jstr j "name", ⟨jstr j "name", none, false⟩, colOf (jval j "col")⟩
 
@@ -104,7 +200,9 @@ def resJ (r : Except MErr (List Entry)) : Json :=
 def handleColumns (j : Json) : Json :=
   let fs := (jarr j "factors").map (fun f => (asArr f).map itemOf)
   let s := ratOfString (jstr j "scale")
-  Json.mkObj [("base", resJ (columnsBase fs s)), ("fast", resJ (columnsFast fs s))]
+  let nfs := (jarr j "factors").map (fun f => (asArr f).map nitemOf)
+  Json.mkObj [("base", resJ (columnsBase fs s)), ("fast", resJ (columnsFast fs s)),
+    ("nbase", nresJ (Nest.ncolumnsBase nfs s)), ("nfast", nresJ (Nest.ncolumnsFast nfs s))]
 
 def handleSimplify (j : Json) : Json :=
   let sts := (jarr j "sts").map stOf
@@ -116,9 +214,19 @@ def handleSpanned (j : Json) : Json :=
   let efs := (jarr j "factors").map factorOf
   Json.mkObj [("sts", jlist ((spannedBy efs).map stJ))]
 
+
+def handleCluster (j : Json) : Json :=
+  let c := (jarr j "factors").map factorOf
+  match clusterTerms c (jbool j "cluster") ((jarr j "terms").map (fun t => (asArr t).map asStr)) with
+  | .error e => jerr e.name
+  | .ok ts => Json.mkObj [("terms", jlist (ts.map jstrs))]
+
 def handle (j : Json) : Json :=
   match jstr j "op" with
   | "matrix" => handleMatrix j
+  | "nmatrix" => handleNMatrix j
+  | "encode" => handleEncode j
+  | "cluster" => handleCluster j
   | "columns" => handleColumns j
   | "simplify" => handleSimplify j
   | "spanned" => handleSpanned j
